@@ -1343,7 +1343,13 @@ func (g *G) subStmtL(inList bool) Out {
 		g.labels = append(g.labels, l)
 		g.inLoop++
 		var b Out
-		switch g.intn("labelbody", 3) {
+		switch g.intn("labelbody", 5) {
+		case 3:
+			// a labelled variable statement (its terminator is the label statement's)
+			d := g.varDecl("var", false, true)
+			b = Out{cat(d.Toks, semi()), d.Str}
+		case 4:
+			b = g.exprStmt()
 		case 0:
 			c := g.parenExpr()
 			body := g.SubStmt()
